@@ -166,6 +166,25 @@ theorem render_source_unchanged (ps : List Patch) : ∀ (xr cd : V), (renderFrom
     · rw [hx]
       exact ih xr _
 
+/-! ### a patch writes what it read -/
+
+/-- Paved.SetValue followed by GetValue on the same (non-empty) path returns the value that was
+written, as normalised by the JSON round trip – for every object, path (creating intermediate
+objects and arrays, growing arrays) and value. -/
+theorem set_then_get (root : V) (segs : List Seg) (v r : V) (hne : segs ≠ [])
+    (h : setValue root segs v = .ok r) : ∃ v', norm v = .ok v' ∧ getValue r segs = .ok v' := by
+  unfold setValue at h
+  split at h
+  · cases h
+  · rename_i v' hv
+    split at h
+    · cases h
+    · refine ⟨v', hv, ?_⟩
+      unfold getValue
+      split
+      · exact absurd rfl hne
+      · exact getIn_setIn _ root v' r hne h
+
 /-! ### totality: nothing in the modelled rendering path can panic -/
 
 /-- The regexp transform returns the "no match" error for every group index outside
